@@ -267,6 +267,10 @@ def evaluate(ctx, results):
             crash_verdict[id(m)] = j not in fl["model_crashes"]
     for r, m in failed:
         ctx.count(("fail", repr(r)), nontrivial=False)
+        if m[0] == "phase:run-failed" and "No reads could be retrieved" in m[3] and "Traceback" not in m[3]:
+            # documented input validation (CommandLineError for an input file without alignments), not a verdict
+            ctx.tally("runs_rejected.no_reads")
+            continue
         ctx.tally("runs_that_crashed")
         sig = m[0]
         if sig == "phase:run-failed" and "find_recombination" in m[3] and "AssertionError" in m[3]:
